@@ -57,6 +57,12 @@ def run(chk: core.Check, tier: str, seed: int) -> None:
         if not ok:
             raise core.MachineryError(f"Apalache does not confirm SliceInd {label}:\n{tail}")
         chk.notes[f"apalache SliceInd {label}"] = f"NoError in {wall:.0f}s (unbounded integers)"
+    # unbounded T4c: the clamping lemma (a component beyond the array may be replaced by any other one beyond it on the same
+    # side; a step longer than the array emits the first index only) over arbitrary integers - what lets 2^30-1 stand for 2^53-1
+    ok, tail, wall = core.run_apalache("ClampInd", ["--init=Init", "--inv=Clamp", "--length=0"], name="apa_clamp")
+    if not ok:
+        raise core.MachineryError(f"Apalache does not confirm ClampInd (T4c unbounded):\n{tail}")
+    chk.notes["apalache ClampInd T4c"] = f"NoError in {wall:.0f}s (unbounded integers)"
     gen = []
     for line in res.out.splitlines():
         line = line.strip()
